@@ -9,5 +9,6 @@ CONSTANTS
   TrackContent = FALSE
   MaxInserts = 0
   ExceededUsesCapacity = TRUE
+  GenLen = 0
 INVARIANTS Bookkeeping LiveBound2
 CHECK_DEADLOCK FALSE
